@@ -66,6 +66,27 @@ func NewRec(id string) (*Rec, error) {
 func (b *Rec) URL() string { return fmt.Sprintf("http://127.0.0.1:%d", b.Port) }
 func (b *Rec) Close()      { b.srv.Close(); hx.ReleasePort(b.Port) }
 
+// Down makes the backend refuse connections (listener and all open connections closed), as if the
+// process had gone away between two health checks; Up brings it back on the same port.
+func (b *Rec) Down() { b.srv.Close() }
+func (b *Rec) Up() error {
+	var ln net.Listener
+	var err error
+	for i := 0; i < 50; i++ {
+		if ln, err = net.Listen("tcp", fmt.Sprintf("127.0.0.1:%d", b.Port)); err == nil {
+			break
+		}
+		time.Sleep(20 * time.Millisecond)
+	}
+	if err != nil {
+		return err
+	}
+	b.ln = ln
+	b.srv = &http.Server{Handler: http.HandlerFunc(b.handle), ReadHeaderTimeout: 30 * time.Second}
+	go b.srv.Serve(ln)
+	return nil
+}
+
 // Seen returns the recorded requests.
 func (b *Rec) Seen() []*Seen {
 	b.mu.Lock()
